@@ -49,6 +49,16 @@ def gen_request_spec(rng):
         return spec
     spec = grammar.gen_api(rng, PROFILE)
     spec["comments"] = True          # documented protos: source_code_info reaches docstrings, so it is part of the bytes
+    if rng.random() < 0.25:
+        # sibling SUB-PACKAGES of the API package (the Google Ads layout: .common / .enums / .resources).  The emitted tree of
+        # such an API is not importable on the pinned commit (C01, not claimed), but its BYTES must still be a function of
+        # the request
+        f0 = spec["files"][0]
+        d = os.path.dirname(f0["name"])
+        for sub in rng.sample(["common", "enums", "resources", "errors"], rng.randint(2, 4)):
+            spec["files"].insert(0, {"name": f"{d}/{sub}/{sub}_types.proto", "package": f0["package"] + "." + sub,
+                                     "messages": [{"name": sub.capitalize() + "Info", "fields": [{"name": "text", "number": 1, "type": "string"}]}],
+                                     "enums": [{"name": sub.capitalize() + "Kind", "values": [["KIND_UNSPECIFIED", 0], ["KIND_A", 1]]}]})
     o = spec["options"]
     o["autogen-snippets"] = rng.random() < 0.7
     if rng.random() < 0.6:
